@@ -8,14 +8,18 @@ Trace == ndJsonDeserialize("trace.ndjson")
 NoDiv == [at |-> 0]
 tnvars == <<nvars, l, div, pend>>
 Has(ev, f) == f \in DOMAIN ev
-Norm(o) == [o EXCEPT !.utxo = Range(@), !.pool = Range(@)]
+(* poolseq (the order in which the pool yields its transactions) is not part of the compared record: it is judged by
+   SeqOK - every transaction comes after the pending transactions whose outputs or key versions it consumes *)
+Norm(o) == [f \in DOMAIN o \ {"poolseq"} |-> IF f \in {"utxo", "pool", "poold"} THEN Range(o[f]) ELSE o[f]]
+SeqOK(o) == "poolseq" \notin DOMAIN o \/ \A i, j \in DOMAIN o.poolseq :
+               (i < j /\ o.poolseq[i] \in AllTxs /\ o.poolseq[j] \in AllTxs) => ~DependsOn(o.poolseq[i], o.poolseq[j])
 NodeSeq == SetToSortSeq(Nodes, <)
 TInit == NInit /\ l = 1 /\ div = NoDiv /\ pend = "" /\ TLCSet(1, 1) /\ TLCSet(2, NoDiv) /\ TLCSet(3, {})
 
 BMsg(ev) == [to |-> ev.to, from |-> ev.from, b |-> ev.b]
 TMsg(ev) == [to |-> ev.to, from |-> ev.from, t |-> ev.t]
 (* the first node whose recorded projection differs from the specification's *)
-BadNodes(ev) == {k \in DOMAIN ev.obs : Norm(ev.obs[k]) # NObs(NodeSeq[k])}
+BadNodes(ev) == {k \in DOMAIN ev.obs : Norm(ev.obs[k]) # NObs(NodeSeq[k]) \/ ~SeqOK(ev.obs[k])}
 Judge(ev, r) == IF r = ev.res /\ BadNodes(ev) = {} THEN NoDiv
                 ELSE LET k == IF BadNodes(ev) = {} THEN 1 ELSE CHOOSE k \in BadNodes(ev) : TRUE IN
                      [at |-> l, tr |-> ev.tr, op |-> ev.op, expres |-> r, actres |-> ev.res, node |-> NodeSeq[k],
